@@ -1,0 +1,13 @@
+// Copyright (C) 2024, Ava Labs, Inc. All rights reserved.
+// See the file LICENSE for licensing terms.
+
+//go:build verif
+
+package executor
+
+// VerifErr returns the executor's sticky error (nil while no task failed and
+// Stop was not called). It only exists in builds with the `verif` tag and is
+// used by the verification harness to observe when the error became visible.
+func (e *Executor) VerifErr() error {
+	return e.err.Load()
+}
